@@ -123,6 +123,16 @@ class DownloadOutputManager:
             },
         )
 
+    def get_io_write_tasks_for_immediate_write(self, fileobj, data, offset):
+        """Get the IO write tasks to run right away for the requested data
+
+        This is used when the data is written by the thread that downloaded
+        it instead of being submitted to the IO executor.
+
+        :returns: A list of IO tasks to run, in order
+        """
+        return [self.get_io_write_task(fileobj, data, offset)]
+
     def get_final_io_task(self):
         """Get the final io task to complete the download
 
@@ -239,6 +249,16 @@ class DownloadNonSeekableOutputManager(DownloadOutputManager):
                     fileobj,
                 )
                 super().queue_file_io_task(fileobj, data, offset)
+
+    def get_io_write_tasks_for_immediate_write(self, fileobj, data, offset):
+        # The stream cannot seek, so data that gets delivered again when a
+        # GetObject is retried must not be written a second time.
+        with self._io_submit_lock:
+            writes = self._defer_queue.request_writes(offset, data)
+            return [
+                self.get_io_write_task(fileobj, write['data'], write['offset'])
+                for write in writes
+            ]
 
     def get_io_write_task(self, fileobj, data, offset):
         return IOStreamingWriteTask(
@@ -625,8 +645,11 @@ class ImmediatelyWriteIOGetObjectTask(GetObjectTask):
     """
 
     def _handle_io(self, download_output_manager, fileobj, chunk, index):
-        task = download_output_manager.get_io_write_task(fileobj, chunk, index)
-        task()
+        tasks = download_output_manager.get_io_write_tasks_for_immediate_write(
+            fileobj, chunk, index
+        )
+        for task in tasks:
+            task()
 
 
 class IOWriteTask(Task):
